@@ -275,6 +275,11 @@ type spanRec struct {
 	Sh   int   `json:"sh"`   // faux italic shear of the face, 1/10000
 	Fox  int   `json:"fox"`  // face offset (sub/superscript) in micrometres
 	Foy  int   `json:"foy"`
+	Pchk bool  `json:"pchk"` // pm was recorded: it is compared with the span origin and rotation reported by the layout
+	Vm   []int `json:"vm"`   // the view matrix handed to RenderText / RenderAsPath
+	Wx   int   `json:"wx"`   // span origin reported by Text.WalkSpans, micrometres
+	Wy   int   `json:"wy"`
+	Rot  int   `json:"rot"` // rotation of the span in degrees (Latin text set sideways in a vertical writing mode: -90)
 }
 type docRec struct {
 	Kind       string    `json:"kind"` // "ttf" | "cff"
@@ -500,9 +505,11 @@ func render(s *Scenario) (res *rendered, ms []core.Mismatch) {
 		txt.RenderAsPath(pr, textMatrix(i), canvas.Resolution(0))
 		// the laid-out glyphs, in the order RenderText walks them
 		var spans []canvas.TextSpan
+		var origins [][2]float64 // span origins as Text.WalkSpans reports them (relative to the text's own origin)
 		txt.WalkSpans(func(x, y float64, span canvas.TextSpan) {
 			if span.IsText() {
 				spans = append(spans, span)
+				origins = append(origins, [2]float64{x, y})
 			}
 		})
 		spanIdx := 0
@@ -535,13 +542,21 @@ func render(s *Scenario) (res *rendered, ms []core.Mismatch) {
 			}
 			// the face's scale is Size / unitsPerEm (the PDF's Tf operand is Size); MmPerEm is not used as a reference
 			scale := span.Face.Size / float64(res.upm)
-			sr := spanRec{W: unitsOf(span.Width, scale), Sum: sum, Um: int(math.Round(span.Width * 1000)), Size: int(math.Round(span.Face.Size * 1000)), N: len(span.Glyphs), Tm: []int{}, Pm: []int{}}
-			if k := spanIdx; horizontal && span.Rotation == 0 && len(span.Glyphs) > 0 && !span.Glyphs[0].Vertical && k < len(pr.ms) {
-				sr.pmOK = true
+			sr := spanRec{W: unitsOf(span.Width, scale), Sum: sum, Um: int(math.Round(span.Width * 1000)), Size: int(math.Round(span.Face.Size * 1000)), N: len(span.Glyphs), Tm: []int{}, Pm: []int{}, Vm: []int{}}
+			sr.Vm = matInts(textMatrix(i))
+			sr.Wx, sr.Wy = int(math.Round(origins[spanIdx][0]*1000)), int(math.Round(origins[spanIdx][1]*1000))
+			sr.Rot = int(math.Round(float64(span.Rotation)))
+			sr.Fox = int(math.Round(scale * float64(span.Face.XOffset) * 1000))
+			sr.Foy = int(math.Round(scale * float64(span.Face.YOffset) * 1000))
+			if k := spanIdx; k < len(pr.ms) && len(pr.ms) == len(spans) && float64(sr.Rot) == float64(span.Rotation) {
+				// every span: where the path rendering puts it (compared with the WalkSpans origin and the rotation)
+				sr.Pchk = true
 				sr.Pm = matInts(pr.ms[k])
-				sr.Sh = int(math.Round(span.Face.FauxItalic * 10000))
-				sr.Fox = int(math.Round(scale * float64(span.Face.XOffset) * 1000))
-				sr.Foy = int(math.Round(scale * float64(span.Face.YOffset) * 1000))
+				if horizontal && span.Rotation == 0 && len(span.Glyphs) > 0 && !span.Glyphs[0].Vertical {
+					// horizontal unrotated spans: also compared with the PDF text matrix
+					sr.pmOK = true
+					sr.Sh = int(math.Round(span.Face.FauxItalic * 10000))
+				}
 			}
 			spanIdx++
 			res.spans = append(res.spans, sr)
